@@ -1022,12 +1022,12 @@ class TreeTransform(Generic[TreeFnT]):
       batch_size: int = 0,
   ) -> TreeTransform:
     """Assign some key value pairs back to the input mapping."""
-    if output_keys:
+    # Index(0), 0 and '' are valid keys: compare with the defaults, not by truth.
+    if output_keys != ():  # pylint: disable=g-explicit-bool-comparison
       raise ValueError(
           '`output_keys` is deprecated, use positional arguments or'
           ' `assign_keys` instead.'
       )
-    assign_keys = assign_keys or output_keys
     fn = tree_fns.Assign(
         output_keys=assign_keys,
         fn=fn,
@@ -1044,7 +1044,9 @@ class TreeTransform(Generic[TreeFnT]):
       output_keys: TreeMapKeys | None = None,
       batch_size: int = 0,
   ) -> TreeTransform:
-    output_keys = output_keys or input_keys
+    # Index(0), 0 and '' are valid keys: only a missing key is defaulted.
+    if output_keys is None or output_keys == ():  # pylint: disable=g-explicit-bool-comparison
+      output_keys = input_keys
     fn = tree_fns.Select(
         input_keys=input_keys, output_keys=output_keys, batch_size=batch_size
     )
